@@ -386,6 +386,9 @@ func init() {
 			if r.Intn(5) == 0 {
 				caps = " obscure=1"
 			}
+			if r.Intn(3) == 0 { // a small server Receive Maximum: refused publishes must not use it up
+				caps += fmt.Sprintf(" recvmax=%d", 1+r.Intn(3))
+			}
 			emit("bk.new" + caps)
 			for i, k := 0, 2+r.Intn(4); i < k; i++ {
 				what := pick(r, topics)
